@@ -208,6 +208,37 @@ where
             "contains" => {
                 ev.r = vec![self.tab(t).contains_key(&K::q(k)) as i64];
             }
+            "iter_default" => {
+                // C09: default-constructed iterators are empty (exact size hint, len, next, fold, clone)
+                use hashbrown::hash_map as hm;
+                let mut good = 0i64;
+                let mut total = 0i64;
+                macro_rules! chk {
+                    ($it:expr) => {{
+                        let mut it = $it;
+                        total += 1;
+                        let sh = it.size_hint() == (0, Some(0));
+                        let ln = it.len() == 0;
+                        let n1 = it.next().is_none();
+                        let n2 = it.next().is_none();
+                        let f = it.fold(0usize, |a, _| a + 1) == 0;
+                        if sh && ln && n1 && n2 && f {
+                            good += 1;
+                        }
+                    }};
+                }
+                chk!(hm::Iter::<K, V>::default());
+                chk!(hm::Iter::<K, V>::default().clone());
+                chk!(hm::IterMut::<K, V>::default());
+                chk!(hm::Keys::<K, V>::default());
+                chk!(hm::Keys::<K, V>::default().clone());
+                chk!(hm::Values::<K, V>::default());
+                chk!(hm::ValuesMut::<K, V>::default());
+                chk!(hm::IntoIter::<K, V, CheckingAlloc>::default());
+                chk!(hm::IntoKeys::<K, V, CheckingAlloc>::default());
+                chk!(hm::IntoValues::<K, V, CheckingAlloc>::default());
+                ev.r = vec![good, total];
+            }
             "get_mut" => {
                 ev.r = match self.tab(t).get_mut(&K::q(k)) {
                     Some(sv) => {
